@@ -55,3 +55,13 @@ for name, e in {"(~b & b) ^ (f == f)": ((~pl.col("b")) & pl.col("b")) ^ (pl.col(
     a = df.lazy().filter(e).collect().rows()
     b = df.lazy().filter(e).collect(optimizations=pl.QueryOptFlags.none()).rows()
     print("D22:", name, "optimized:", a, "unoptimized:", b)
+
+
+# D16 (fourth trigger): horizontal max with a literal inside group_by().agg() over a column in which a join repeated one row
+l = pl.DataFrame({"s": ["a", "a"]})
+r = pl.DataFrame({"s_x": ["a"], "g_x": [2], "x_x": [651]})
+try:
+    l.lazy().join(r.lazy(), left_on="s", right_on="s_x").group_by("x_x").agg(u=pl.max_horizontal(pl.lit(2), pl.col("g_x")).sum()).collect()
+    print("D16d not reproduced")
+except Exception as e:  # noqa: BLE001
+    print("D16d:", type(e).__name__, str(e)[:80])
